@@ -74,6 +74,9 @@ def c12(tier, rep):
     _rows(rep, 5 if tier == "quick" else 6, (124, 101, 769, 32, 3635), (32,), "combining", ("count", "text", "col", "ast", "exception"))
     _rows(rep, 5 if tier == "quick" else 6, (124, 35, 32, 9, 120), (32,), "hash", ("count", "text", "col", "ast", "exception"))
     _rows(rep, 5 if tier == "quick" else 6, (124, 92, 0, 1, 110), (32,), "nul", ("count", "text", "col", "ast", "exception"))
+    # "a table whose rows differ in cell count is rejected with an error": also through the stream layer, whatever is printed
+    from props_total import _stream_rejection
+    _stream_rejection(rep, [x for x in E.src_limits() + E.src_corpus() + E.src_noisy(200, SEED + 5) if "|" in x[1]], only_kind="inconsistent cell count")
     E.traces(rep, E.record_all(std_sources(tier, 300, 3000)), "corpus+gen+noisy")
 
 
@@ -296,6 +299,9 @@ PFX_TAGS_AFTER_TABLE = [1, 4, 6, 8, 10, 5]          # Feature, Scenario, Given, 
 PFX_CELLLESS = [1, 4, 6, 12, 12, 5, 12]            # Feature, Scenario, Given, |, |; Examples, | (a header without cells)
 PFX_TAG_PLACEHOLDER = [13, 1, 13, 4, 6, 13, 5, 8]  # @x<a> tags on Feature, Scenario and Examples; header | a |
 PFX_BG_ARG = [1, 3, 6, 11, 4, 6, 5, 8]              # Feature, Background, Given <a> x, | <a> |; Scenario, Given <a> x; Examples, | a |
+PFX_RULE_BG_ONLY = [1, 2, 3, 6, 2]                  # Feature, Rule, Background, Given; Rule (the first rule has a background and no scenario)
+PFX_STEPLESS_RULE_BG = [1, 3, 6, 2, 3, 2]          # Feature, Background, Given; Rule, Background (no steps); Rule
+PFX_RULE_BG_THEN_RULE = [1, 2, 3, 6, 4, 6, 2]      # Feature; Rule, Background, Given, Scenario, Given; Rule (no feature-level background)
 MIXED_CASE_DIALECTS = ["cy-GB", "en-Scouse", "mk-Cyrl", "mk-Latn", "sr-Cyrl", "sr-Latn", "zh-CN", "zh-TW", "fr", "em", "ht", "en-old"]
 
 
@@ -306,7 +312,8 @@ def _compile_family(tier, rep, inv):
     q = tier == "quick"
     E.grow(rep, M.STRUCT, [([], 6 if q else 8), (PFX_TWO_RULES, 3 if q else 4), (PFX_TAGGED, 2 if q else 3), (PFX_OUTLINE, 2 if q else 4),
                            (PFX_RULE_BG, 2 if q else 3), (PFX_TABLELESS, 3 if q else 4), (PFX_BG_ARG, 2 if q else 3),
-                           (PFX_TAGS_AFTER_TABLE, 2), (PFX_CELLLESS, 2), (PFX_TAG_PLACEHOLDER, 2)],
+                           (PFX_TAGS_AFTER_TABLE, 2), (PFX_CELLLESS, 2), (PFX_TAG_PLACEHOLDER, 2),
+                           (PFX_RULE_BG_ONLY, 2 if q else 3), (PFX_STEPLESS_RULE_BG, 2 if q else 3), (PFX_RULE_BG_THEN_RULE, 2 if q else 3)],
            invariants=[inv], label="struct")
     E.traces(rep, E.record_all(std_sources(tier, 300, 3000) + E.src_generated(60 if q else 1000, SEED + 1, MIXED_CASE_DIALECTS)), "corpus+gen+noisy+dialects")
     # the same with the id counter well past one digit when the document starts (a document in the middle of a stream)
@@ -410,6 +417,8 @@ def c17(tier, rep):
     rep.extra["rule"] = ("streams: every sequence of <= N pool sources x 8 option sets (spec -> code); recorded streams of 1..5 corpus/generated/noisy "
                          "sources with random option sets (code -> spec), every envelope reduced to a shape checked against Messages.tla; CLI output round-trip")
     _stream_part(tier, rep, lambda what: True)
+    from props_total import _stream_rejection
+    _stream_rejection(rep, E.src_limits() + E.src_corpus() + E.src_noisy(60 if tier == "quick" else 600, SEED + 5))
     # the command line in front of the stream: every command line over the flags and a pool of files (MC_Cli), each run as a real process
     import cli as CLI
     cases, badc, res = CLI.model_check_and_replay(3 if tier == "quick" else 4)
@@ -500,6 +509,16 @@ def c11(tier, rep):
     E.traces(rep, E.record_all(std_sources(tier, 300, 3000) + E.src_generated(40 if q else 600, SEED + 2, MIXED_CASE_DIALECTS)), "corpus+gen+noisy+dialects")
     E.many_uses_pass(rep, 2500 if tier == "quick" else 20000)
     E.compiler_reuse_pass(rep, std_sources(tier, 100, 1000))
+    import cli as CLI
+    cases, badc, resc = CLI.model_check_and_replay(2 if q else 3)
+    rep.add_tlc("MC_Cli", resc, f"{len(cases)} command lines run through scripts/generate_events.py: Inv_OneStream (the ids of one run are pairwise distinct -- one stream object for all files)")
+    rep.traces += len(cases)
+    for inv in sorted(set(resc.invariant_violations)):
+        if inv == "Inv_OneStream":
+            rep.violation({"kind": "spec-invariant", "invariant": inv}, {"engine": "MC_Cli", "what": f"{inv} violated", "tlc_tail": resc.out[-3000:]})
+    for b in badc[:20]:
+        if sum(1 for w in b["argv"] if not w.startswith("--")) > 1:
+            rep.violation({"kind": "command-line"}, {"engine": "MC_Cli", "what": "scripts/generate_events.py with several files prints something else than ONE stream over them", **b})
     _default_parser_ids(rep)
     _user_generators(rep, E.src_corpus() + E.src_limits() + E.src_generated(40 if q else 400, SEED + 3))
     _many_ids(rep, 1200 if q else 4000)
